@@ -18,8 +18,14 @@ structure MSt where
   newOp : Option Nat := none
   closedBcs : List Nat := []
   downBcs : List Nat := []
-  fired : Nat := 0
+  /-- close operations whose Deferred has fired -/
+  firedOps : List Nat := []
+  /-- bootstrap connections the client told to close / whose closing has been notified -/
+  bootLost : List Nat := []
+  bootGone : List Nat := []
   fails : List String := []
+  /-- failures of the one rule the code is KNOWN to violate (kept apart: `ok` does not include them) -/
+  bootFails : List String := []
   deriving Repr
 
 def fail (s : MSt) (why : String) : MSt := { s with fails := s.fails ++ [why] }
@@ -47,6 +53,7 @@ def stepItem (s : MSt) : TItem → MSt
     | .send o _ _ _ _ => startOp s o
     | .cload o _ => startOp s o
     | .srtc o _ _ => startOp s o
+    | .ltp o _ => startOp s o
     | .close o => if s.closed then s else { s with closed := true, closeStep := true, closeOp := some o }
     | .down b => { s with downBcs := s.downBcs ++ [b] }
     | _ => s
@@ -61,26 +68,34 @@ def stepItem (s : MSt) : TItem → MSt
     | .bootConnect j _ _ => if s.closed then fail s s!"bootstrap connect {j} after close" else s
     | .bootWrite j => if s.closed then fail s s!"bootstrap write {j} after close" else s
     | .bcClose b => { s with closedBcs := s.closedBcs ++ [b] }
+    | .bootLose j => { s with bootLost := s.bootLost ++ [j] }
     | .down b => { s with downBcs := s.downBcs ++ [b] }
-    | .closeFired _ =>
-      let s1 := { s with fired := s.fired + 1 }
-      let s2 := if s1.fired > 1 then fail s1 "close Deferred fired twice" else s1
-      if s2.closedBcs.all (fun b => s2.downBcs.contains b) then s2
-      else fail s2 "close Deferred fired before the last broker client had gone"
+    | .closeFired o =>
+      let s2 := if s.firedOps.contains o then fail s "close Deferred fired twice" else { s with firedOps := s.firedOps ++ [o] }
+      let s3 := if s2.bootLost.all (fun j => s2.bootGone.contains j) then s2
+        else { s2 with bootFails := s2.bootFails ++ ["close Deferred fired before a bootstrap connection had gone"] }
+      if s3.closedBcs.all (fun b => s3.downBcs.contains b) then s3
+      else fail s3 "close Deferred fired before the last broker client had gone"
     | _ => s
   | .dump c =>
     if s.closed && !Afkak.Monitor.C08.allInvalid c then fail s "metadata survives close" else
     if s.closed && !c.clients.isEmpty then fail s "clients survive close" else s
   | .net what => if s.closed then fail s s!"network activity after close: {what}" else s
+  | .bootGone j => { s with bootGone := s.bootGone ++ [j] }
   | _ => s
 
 def run (tr : List TItem) : MSt :=
   let s := endStep (tr.foldl stepItem {})
   -- at the end: once every closed broker client has gone the close Deferred must have fired
-  if s.closed && s.closedBcs.all (fun b => s.downBcs.contains b) && s.fired != 1 then
+  if s.closed && s.closedBcs.all (fun b => s.downBcs.contains b) &&
+      !(match s.closeOp with | some o => s.firedOps.contains o | none => true) then
     fail s "every broker client has gone but the close Deferred did not fire exactly once"
   else s
 
 def ok (tr : List TItem) : Bool := (run tr).fails.isEmpty
+
+/-- `ok` plus the rule that the close Deferred also waits for the bootstrap connections (which the
+    code is known not to do: known finding, open statement `C20_close_awaits_bootstrap_connections`) -/
+def okFull (tr : List TItem) : Bool := (run tr).fails.isEmpty && (run tr).bootFails.isEmpty
 
 end Afkak.Monitor.C20
